@@ -81,6 +81,13 @@ def plan_e_histories(case: dict, ref: dict) -> list[list[dict]]:
     r = rng(case["case_seed"], "plan")
     strata = engine.fault_strata(ref.get("event_log", []))
     hs: list[list[dict]] = [[{"sigma": sigma}, {"sigma": sigma}]]
+    # the second run reaches the same output directory from another working directory / through another spelling
+    other = dict(sigma, **engine.sample_sigma(r, ["cwd", "out_spelling", "src_spelling"]))
+    if other.get("out_spelling") == "nested":
+        other["out_spelling"] = "rel"
+    if other.get("cwd") == "out":
+        other["cwd"] = "proj"
+    hs.append([{"sigma": sigma}, {"sigma": other}])
     if not strata:
         return hs
     e = engine.pick_fault_event(r, strata)
